@@ -31,7 +31,7 @@ ASSUMPTIONS = [
   "CPU device, canonical thread order",
 ]
 BUDGET = {
-  "quick": dict(examples=64, seconds=150, workers=16),
+  "quick": dict(examples=64, seconds=420, workers=16),
   "thorough": dict(examples=1600, seconds=1500, workers=16),
 }
 
